@@ -73,6 +73,7 @@ type State struct {
 	BlobOf      map[string]int    // opaque string standing for a structured blob -> heap object
 	FileOf      map[string]int    // opaque file name (zz.YAMLFile) -> heap object of its content
 	Gz          map[string]StrV   // gzip stream term -> the bytes it was made from
+	B64Var      map[string]string // spare-bits variant of a base64 text -> that text
 	Now0        string
 	Occ         map[string]int
 	Nondet      []NondetRec
@@ -135,6 +136,12 @@ func (s *State) Fork() *State {
 		n.B64 = make(map[string]StrV, len(s.B64))
 		for k, v := range s.B64 {
 			n.B64[k] = v
+		}
+	}
+	if s.B64Var != nil {
+		n.B64Var = make(map[string]string, len(s.B64Var))
+		for k, v := range s.B64Var {
+			n.B64Var[k] = v
 		}
 	}
 	if s.Gz != nil {
